@@ -281,8 +281,12 @@ cJSON *change_state(const struct peer *p, const cJSON *request)
 
 	cJSON_Delete(e->value);
 	e->value = value_copy;
+	/*
+	 * The state is changed from here on. A fetching peer that can't be
+	 * notified must not turn the already applied change into an error.
+	 */
 	if (unlikely(notify_fetchers(e, "change") != 0)) {
-		return create_error_response_from_request(p, request, INTERNAL_ERROR, "could not notify fetching peer", path);
+		log_peer_err(p, "Could not notify all fetching peers for change of %s\n", path);
 	}
 
 	return create_success_response_from_request(p, request);
